@@ -823,4 +823,75 @@ theorem last3 (l : Bytes) (h : 3 ≤ l.length) :
       rw [List.getElem?_append_right (by simp)]
       simp
 
+/-! ### VerifyDS loop -/
+
+section
+variable (sup : DSRec → Bool) (dmatch : DKey → Nat → Bytes → Bool) (limit : Nat) (keys : List DKey)
+
+theorem verifyDSStep_matched (st : DSState) (d : DSRec) (h : st.matched = true) :
+    verifyDSStep sup dmatch limit keys st d = st := by
+  unfold verifyDSStep; simp [h]
+
+theorem verifyDSStep_unmatched (st : DSState) (d : DSRec) (h : st.matched = false) :
+    verifyDSStep sup dmatch limit keys st d =
+      { supported := st.supported + (if sup d then 1 else 0),
+        matched := dsAuthenticates sup dmatch limit keys d } := by
+  unfold verifyDSStep dsAuthenticates
+  simp only [h, Bool.false_eq_true, if_false]
+  by_cases hs : sup d = true
+  · simp only [hs, Bool.not_true, Bool.false_eq_true, if_false, if_true, Bool.true_and]
+    by_cases hc : (keys.filter (usableDSCandidate limit d)).isEmpty = true
+    · have : keys.filter (usableDSCandidate limit d) = [] := by simpa using hc
+      simp only [hc, if_true, this, List.any_nil, Bool.and_false]
+      cases hexDecode d.digest <;> simp [h]
+    · simp only [hc, Bool.false_eq_true, if_false]
+      cases hd : hexDecode d.digest with
+      | none => simp [h]
+      | some want =>
+        simp only
+        by_cases hw : want.isEmpty = true
+        · simp [hw, h]
+        · simp only [hw, Bool.false_eq_true, if_false, Bool.not_false, Bool.true_and]
+          by_cases hm : (keys.filter (usableDSCandidate limit d)).any (fun k => dmatch k d.dt want) = true
+          · simp [hm]
+          · have hm' : (keys.filter (usableDSCandidate limit d)).any (fun k => dmatch k d.dt want) = false := by simpa using hm
+            simp [hm']
+  · have hs' : sup d = false := by simpa using hs
+    cases st with
+    | mk s m => simp only at h; subst h; simp [hs']
+
+theorem foldl_matched_stays (l : List DSRec) : ∀ st : DSState, st.matched = true →
+    (l.foldl (verifyDSStep sup dmatch limit keys) st) = st := by
+  induction l with
+  | nil => intro st _; rfl
+  | cons d t ih =>
+    intro st h
+    simp only [List.foldl_cons, verifyDSStep_matched sup dmatch limit keys st d h]
+    exact ih st h
+
+theorem foldl_verifyDS (l : List DSRec) : ∀ st : DSState, st.matched = false →
+    ((l.foldl (verifyDSStep sup dmatch limit keys) st).matched = true ↔
+        ∃ d ∈ l, dsAuthenticates sup dmatch limit keys d = true) ∧
+      ((l.foldl (verifyDSStep sup dmatch limit keys) st).matched = false →
+        (l.foldl (verifyDSStep sup dmatch limit keys) st).supported = st.supported + (l.filter sup).length) := by
+  induction l with
+  | nil => intro st h; simp [h]
+  | cons d t ih =>
+    intro st h
+    simp only [List.foldl_cons]
+    rw [verifyDSStep_unmatched sup dmatch limit keys st d h]
+    by_cases ha : dsAuthenticates sup dmatch limit keys d = true
+    · rw [foldl_matched_stays sup dmatch limit keys t _ (by simpa using ha)]
+      simp [ha]
+    · have ha' : dsAuthenticates sup dmatch limit keys d = false := by simpa using ha
+      have := ih { supported := st.supported + (if sup d then 1 else 0), matched := dsAuthenticates sup dmatch limit keys d } (by simpa using ha')
+      obtain ⟨h1, h2⟩ := this
+      refine ⟨?_, ?_⟩
+      · rw [h1]; simp [ha']
+      · intro hm
+        rw [h2 hm]
+        simp only [List.filter_cons]
+        by_cases hs : sup d = true <;> simp [hs] <;> omega
+end
+
 end SdnsVerif.Lemmas.DnssecPrim
